@@ -1,12 +1,8 @@
 SPECIFICATION Spec
 CONSTANTS S1 = 7 S2 = 7 S3 = 0  MaxV = 1  Start = "Holes"  Strict = FALSE  Cross = FALSE  Close = FALSE  LabelBoundary = FALSE
 CHECK_DEADLOCK FALSE
-INVARIANT ErosionIsBoundary
 INVARIANT CoordsAreBoundary
 INVARIANT EachOnce
 INVARIANT SetsDoNotMixRegions
 INVARIANT OneSetPerRegion
-INVARIANT EveryRegionHasASet
-INVARIANT LabelOrder
-INVARIANT FastIsDef
 INVARIANT LabelIsTraceNotion
